@@ -106,26 +106,47 @@ def gen_program(rnd, length):
             a, b = operand(), operand()
             if a["t"] == "num" and b["t"] == "num":
                 a = {"t": "name", "n": rnd.choice(bound)}
-            op = {"k": "binop", "o": rnd.choice(["+", "-", "*"]), "a": a, "b": b, "dst": rnd.choice(NAMES)}
+            o = rnd.choice(["+", "-", "*", "+", "-", "*", "/", "%", "**", "mul", "div", "max", "min"])
+            if o in ("/", "%", "**") and rnd.random() < 0.85:
+                a = {"t": "name", "n": rnd.choice(bound)}
+                if rnd.random() < 0.75 or o == "**":
+                    b = {"t": "num", "x": num(rnd, "idz" if rnd.random() < 0.25 else "id")}
+                    if o == "**":
+                        b["x"]["v"][0] = rnd.choice([0, 1, 2, 2, 3, -1])
+                if o == "/" and b["t"] == "num" and rnd.random() < 0.5 and len(prog) < length - 1:
+                    # (A * c) / c is exact: multiply first, then divide the product
+                    mid = rnd.choice(NAMES)
+                    prog.append({"k": "binop", "o": "*", "a": a, "b": b, "dst": mid})
+                    shapes[mid] = 4
+                    a = {"t": "name", "n": mid}
+            op = {"k": "binop", "o": o, "a": a, "b": b, "dst": rnd.choice(NAMES)}
             shapes[op["dst"]] = 4
         elif r < 0.84:
             src = rnd.choice(bound)
             b = {"t": "name", "n": rnd.choice(bound)} if rnd.random() < 0.5 else {"t": "num", "x": num(rnd, "idz")}
-            op = {"k": "ibinop", "o": rnd.choice(["+", "-", "*"]), "src": src, "b": b}
+            op = {"k": "ibinop", "o": rnd.choice(["+", "-", "*", "+", "-", "*", "/", "%"]), "src": src, "b": b}
+            if op["o"] in ("/", "%") and rnd.random() < 0.7:
+                op["b"] = {"t": "num", "x": num(rnd, "id")}
         elif r < 0.91:
             src = rnd.choice(bound)
-            op = {"k": "unary", "u": rnd.choice(["neg", "pos", "copy", "trans", "ctrans", "real", "imag"]), "src": src, "dst": rnd.choice(NAMES)}
+            u = rnd.choice(["neg", "pos", "copy", "trans", "ctrans", "real", "imag", "abs"])
+            if u == "abs":
+                op = {"k": "abs", "src": src, "dst": rnd.choice(NAMES)}
+            else:
+                op = {"k": "unary", "u": u, "src": src, "dst": rnd.choice(NAMES)}
             shapes[op["dst"]] = shapes[src]
         elif r < 0.95:
             src = rnd.choice(bound)
             n = shapes[src]
             op = {"k": "setsize", "src": src, "size": rnd.choice([[n, 1], [1, n], [2, n // 2 if n else 0], [n, 2], [0, 0]])}
-        elif r < 0.98:
+        elif r < 0.975:
             src = rnd.choice(bound); dst = rnd.choice(NAMES)
             op = {"k": "alias", "src": src, "dst": dst}
             shapes[dst] = shapes[src]
         else:
-            op = {"k": rnd.choice(["len", "sum"]), "src": rnd.choice(bound)}
+            op = {"k": rnd.choice(["len", "sum", "max1", "min1", "bool", "in", "list"]), "src": rnd.choice(bound)}
+            if op["k"] == "in":
+                op["x"] = num(rnd, "idz")
         prog.append(op)
     return prog
 
@@ -169,21 +190,28 @@ def _obsnum(v):
     if isinstance(v, int):
         return {"k": "num", "tc": "i", "v": [v, 0]}
     if isinstance(v, float):
-        if v != int(v):
+        if not _isint(v):
             return {"k": "num", "tc": "d", "v": ["nonint", repr(v)]}
         return {"k": "num", "tc": "d", "v": [int(v), 0]}
     if isinstance(v, complex):
+        if not (_isint(v.real) and _isint(v.imag)):
+            return {"k": "num", "tc": "z", "v": ["nonint", repr(v)]}
         return {"k": "num", "tc": "z", "v": [int(v.real), int(v.imag)]}
     return None
+
+
+def _isint(x):
+    import math
+    return math.isfinite(x) and x == int(x)
 
 
 def _snap(M):
     buf = []
     for v in M:
         if M.typecode == "z":
-            buf.append([int(v.real), int(v.imag)] if v.real == int(v.real) and v.imag == int(v.imag) else ["nonint", repr(v)])
+            buf.append([int(v.real), int(v.imag)] if _isint(v.real) and _isint(v.imag) else ["nonint", repr(v)])
         else:
-            buf.append([int(v), 0] if v == int(v) else ["nonint", repr(v)])
+            buf.append([int(v), 0] if _isint(v) else ["nonint", repr(v)])
     return {"tc": M.typecode, "nr": M.size[0], "nc": M.size[1], "buf": buf}
 
 
@@ -244,7 +272,10 @@ def run_program(prog):
                     env[op["src"]][_pyindex(op["ix"]), _pyindex(op["jx"])] = val
             elif k == "binop":
                 a, b = operand(op["a"]), operand(op["b"])
-                res = a + b if op["o"] == "+" else (a - b if op["o"] == "-" else a * b)
+                import cvxopt
+                res = {"+": lambda: a + b, "-": lambda: a - b, "*": lambda: a * b, "/": lambda: a / b, "%": lambda: a % b, "**": lambda: a ** b,
+                       "mul": lambda: cvxopt.mul(a, b), "div": lambda: cvxopt.div(a, b), "max": lambda: cvxopt.max(a, b),
+                       "min": lambda: cvxopt.min(a, b)}[op["o"]]()
             elif k == "ibinop":
                 A = env[op["src"]]
                 b = operand(op["b"])
@@ -255,6 +286,10 @@ def run_program(prog):
                     A += b
                 elif op["o"] == "-":
                     A -= b
+                elif op["o"] == "/":
+                    A /= b
+                elif op["o"] == "%":
+                    A %= b
                 else:
                     A *= b
                 if A is not A0:
@@ -269,6 +304,19 @@ def run_program(prog):
                 env[op["src"]].size = (op["size"][0], op["size"][1])
             elif k == "alias":
                 env[op["dst"]] = env[op["src"]]
+            elif k == "abs":
+                res = abs(env[op["src"]])
+            elif k in ("max1", "min1"):
+                res = (max if k == "max1" else min)(env[op["src"]])
+            elif k == "bool":
+                out = {"k": "bool", "v": bool(env[op["src"]])}
+            elif k == "in":
+                out = {"k": "bool", "v": (_pynum(op["x"]) in env[op["src"]])}
+            elif k == "list":
+                A = env[op["src"]]
+                vs = [_obsnum(v) for v in list(A)]
+                out = {"k": "seq", "tc": A.typecode, "vs": [v["v"] for v in vs]} if all(v is not None and v["tc"] == A.typecode for v in vs) \
+                    else {"k": "err", "cls": "iteration-yields-wrong-types"}
             elif k == "len":
                 res = len(env[op["src"]])
             elif k == "sum":
@@ -302,7 +350,8 @@ def run_program(prog):
         same = [[a, b] for a in env for b in env if env[a] is env[b]]
         idxok = all(list(M) == orig and M.size == (len(orig), 1) for M, orig in _IDX_LOG)
         del _IDX_LOG[:]
-        trace.append({"op": _clean(op), "out": out, "heap": heap, "same": same, "idxok": idxok})
+        trace.append({"op": _clean(op), "out": out, "heap": heap, "same": same, "idxok": idxok,
+                      "nonint": '"nonint"' in json.dumps(heap) or '"nonint"' in json.dumps(out)})
     return trace
 
 
@@ -316,10 +365,36 @@ def _clean(op):
     return c(op)
 
 
+def _run_many(progs):
+    return [run_program(p) for p in progs]
+
+
 def _job(args):
+    """programs run in forked children: the death of the interpreter is an observation attributed to the shortest crashing prefix"""
+    from harness import isolate
     seed, n, length = args
     rnd = random.Random(seed)
-    return [run_program(gen_program(rnd, rnd.randint(3, length))) for _ in range(n)]
+    progs = [gen_program(rnd, rnd.randint(3, length)) for _ in range(n)]
+    out = []
+    for c0 in range(0, n, 50):
+        chunk = progs[c0:c0 + 50]
+        st, r = isolate.run_isolated(_run_many, chunk, timeout=300)
+        if st == "ok":
+            out += r
+            continue
+        for p in chunk:
+            st1, r1 = isolate.run_isolated(run_program, p, timeout=60)
+            if st1 == "ok":
+                out.append(r1)
+                continue
+            k = len(p)
+            for j in range(1, len(p) + 1):
+                st2, r2 = isolate.run_isolated(run_program, p[:j], timeout=60)
+                if st2 != "ok":
+                    k = j
+                    break
+            out.append({"crash": "%s:%s" % (st1, r1), "prog": p[:k]})
+    return out
 
 
 def classify(ev, clause):
@@ -355,18 +430,23 @@ def run(tier, seed, replay=None):
     if r.violated:
         ck.violation("spec|DenseMatrix|" + r.violated, "design-level violation", r.out[-2000:])
         ck.finish()
-    nprog, length = (1600, 14) if quick else (40000, 25)
+    nprog, length = (4800, 14) if quick else (60000, 25)
     from harness.core import pmap
     parts = pmap(ck, _job, [(seed * 100 + i, nprog // 16, length) for i in range(16)], "c15", timeout=PMAP_TIMEOUT, chunksize=1)
     if parts is None:
         ck.finish()
     traces = []
     for tr_ in [t for p in parts for t in p if t]:
+        if isinstance(tr_, dict):
+            last = tr_["prog"][-1]
+            ck.violation(classify({"op": _clean(last), "out": {"k": "interpreter-died"}}, "interpreter-died"),
+                         "the interpreter died (%s) executing the last operation of %s" % (tr_["crash"], json.dumps(tr_["prog"])[:600]), tr_)
+            continue
         for k_, ev_ in enumerate(tr_):
             if '"nonint"' in json.dumps(ev_["heap"]) or '"nonint"' in json.dumps(ev_["out"]):
-                ck.violation(classify(ev_, "non-integer-value"), "step %d (%s) produced a non-integer value from integer data" % (
-                    k_ + 1, json.dumps(ev_["op"])[:160]), {"trace": tr_[max(0, k_ - 2):k_ + 1]})
-                tr_ = tr_[:k_]
+                # a value outside the integers: legitimate for division / powers / moduli (the model answers "cut" there and the trace ends);
+                # anywhere else the model's exact result differs and the step is rejected
+                tr_ = tr_[:k_ + 1]
                 break
         if tr_:
             traces.append(tr_)
